@@ -59,7 +59,9 @@ class AngularModel:
         for name, f, wanted in (("__init__", self.f_init, ("cache",)),
                                 ("_get_degree_and_size", self.f_get, ("degrees", "npoints")),
                                 ("_load_precomputed_angular_grid", self.f_load, ("degrees", "npoints", "package"))):
-            d = e4.string_dispatch(f.node.body, "method")
+            mod_funcs = {g.name: g.node for g in repo.funcs.values()
+                         if g.module == "angular" and g.cls is None and not g.is_lambda and isinstance(g.node, ast.FunctionDef)}
+            d = e4.string_dispatch(f.node.body, "method", mi.globals, mod_funcs)
             if d is None:
                 raise AnalysisError(f"unrecognised idiom: no `method == \"...\"` dispatch chain in AngularGrid.{name}")
             chain, else_body, node = d
